@@ -261,7 +261,9 @@ class Runner:
         parts = []
         for res in sorted(self.known_res):
             d = self.world.read(res)
-            if d is not MISSING:
+            if type(d).__name__ == "Corrupt":
+                parts.append(" r%d=CORRUPT" % res)
+            elif d is not MISSING:
                 parts.append(" r%d=%s" % (res, enc(d)))
         if self.bcls is not None:
             files = sorted(self.res_of_path(p) for p in self.bcls._buffer)
